@@ -59,6 +59,10 @@ func (t Tuple) repr(start, end string) (Object, error) {
 		}
 		out.WriteString(str)
 	}
+	if len(t) == 1 && start == "(" {
+		// a one-element tuple needs the trailing comma to read back as a tuple
+		out.WriteString(",")
+	}
 	out.WriteString(end)
 	return String(out.String()), nil
 }
